@@ -94,65 +94,68 @@ theorem expand_other (grow : Nat → Nat) (q : PQueue) (m : Mem) :
           (Mem.otherSame_freeT _ _)
 
 /-- exact outcome of `expand_capacity` in terms of its guards and the allocator's answer -/
-theorem expand_status (grow : Nat → Nat) (q : PQueue) (m : Mem) (ht : q.triple = .conf) :
+theorem expand_status (grow : Nat → Nat) (q : PQueue) (m : Mem) :
     ((expandCapacity grow q m).1 = .errAlloc ↔
-      (q.capacity ≠ Gen.CC_MAX_ELEMENTS ∧ ¬ newCapacity grow q > Gen.CC_MAX_ELEMENTS / ptrSize ∧ m.alloc.1 = false)) ∧
+      (q.capacity ≠ Gen.CC_MAX_ELEMENTS ∧ ¬ newCapacity grow q > Gen.CC_MAX_ELEMENTS / ptrSize ∧
+       (m.allocT q.triple).1 = false)) ∧
     ((expandCapacity grow q m).1 = .errMaxCapacity ↔
       (q.capacity = Gen.CC_MAX_ELEMENTS ∨ newCapacity grow q > Gen.CC_MAX_ELEMENTS / ptrSize)) := by
   unfold expandCapacity; dsimp only
-  rw [ht]; simp only [Mem.allocT_conf, Mem.freeT_conf]
   by_cases h1 : q.capacity = Gen.CC_MAX_ELEMENTS
   · simp [h1]
   · by_cases h2 : newCapacity grow q > Gen.CC_MAX_ELEMENTS / ptrSize
     · simp [h1, h2]
-    · by_cases ha : m.alloc.1 = true
+    · by_cases ha : (m.allocT q.triple).1 = true
       · simp [h1, h2, ha]
-      · have ha' : m.alloc.1 = false := by simpa using ha
+      · have ha' : (m.allocT q.triple).1 = false := by simpa using ha
         simp [h1, h2, ha']
 
-/-- allocator counters of `expand_capacity` -/
-theorem expand_counts (grow : Nat → Nat) (q : PQueue) (m : Mem) (ht : q.triple = .conf) :
-    ((expandCapacity grow q m).1 = .ok → (expandCapacity grow q m).2.2.nalloc = m.nalloc + 1 ∧
+/-- allocator counters of `expand_capacity`, on the queue's own triple -/
+theorem expand_counts (grow : Nat → Nat) (q : PQueue) (m : Mem) :
+    ((expandCapacity grow q m).1 = .ok → (expandCapacity grow q m).2.2.allocsT q.triple = m.allocsT q.triple + 1 ∧
         (expandCapacity grow q m).2.2.nrefused = m.nrefused ∧
         (expandCapacity grow q m).2.1.capacity = newCapacity grow q) ∧
-    ((expandCapacity grow q m).1 = .errAlloc → (expandCapacity grow q m).2.2.nalloc = m.nalloc ∧
+    ((expandCapacity grow q m).1 = .errAlloc → (expandCapacity grow q m).2.2.allocsT q.triple = m.allocsT q.triple ∧
         (expandCapacity grow q m).2.2.nrefused = m.nrefused + 1) ∧
     ((expandCapacity grow q m).1 = .errMaxCapacity → (expandCapacity grow q m).2.2 = m) := by
   unfold expandCapacity; dsimp only
-  rw [ht]; simp only [Mem.allocT_conf, Mem.freeT_conf]
   by_cases h1 : q.capacity = Gen.CC_MAX_ELEMENTS
   · simp [h1]
   · by_cases h2 : newCapacity grow q > Gen.CC_MAX_ELEMENTS / ptrSize
     · simp [h1, h2]
-    · by_cases ha : m.alloc.1 = true
-      · have := alloc_true_fields m ha
-        simp [h1, h2, ha, (free_fields _).1, (free_fields _).2.1, (check_fields _ _).1, (check_fields _ _).2.1, this]
-      · have ha' : m.alloc.1 = false := by simpa using ha
-        have := alloc_false_fields m ha'
-        simp [h1, h2, ha', this]
+    · by_cases ha : (m.allocT q.triple).1 = true
+      · have e1 := Mem.allocT_true_allocs m q.triple ha
+        have e2 := Mem.allocT_nrefused_true m q.triple ha
+        have e3 : ∀ b, ((m.allocT q.triple).2.check b).nrefused = m.nrefused := fun b => by
+          rw [(Mem.check_allocs _ _ q.triple).2, e2]
+        simp [h1, h2, ha, (Mem.freeT_allocs _ _).1, (Mem.freeT_allocs _ _).2, (Mem.check_allocs _ _ _).1, e1, e3]
+      · have ha' : (m.allocT q.triple).1 = false := by simpa using ha
+        have e1 := Mem.allocT_false_allocs m q.triple ha'
+        have e2 := (Mem.allocT_false m q.triple ha').2.2.2.2
+        simp [h1, h2, ha', e1, e2]
 
-/-- `cc_pqueue_push`: status, and allocator counters, in every case -/
+/-- `cc_pqueue_push`: status, and allocator counters of the queue's triple, in every case -/
 theorem push_counts {cmp : Nat → Nat → Int} (tp : TotalPreorder cmp) (grow : Nat → Nat)
-    (q : PQueue) (x : Nat) (m : Mem) (h : Inv' cmp q) (ht : q.triple = .conf) (hl : 0 < m.live) :
+    (q : PQueue) (x : Nat) (m : Mem) (h : Inv' cmp q) (hl : 0 < m.liveT q.triple) :
     -- no growth attempted or growth impossible: the ledger record is untouched
     (((q.size < q.capacity ∧ (push cmp grow q x m).1 = .ok) ∨ (push cmp grow q x m).1 = .errMaxCapacity) ∧
         (push cmp grow q x m).2.2 = m ∧ (push cmp grow q x m).2.1.capacity = q.capacity) ∨
     -- growth succeeded
-    ((push cmp grow q x m).1 = .ok ∧ q.size = q.capacity ∧ m.alloc.1 = true ∧
-        (push cmp grow q x m).2.2.nalloc = m.nalloc + 1 ∧ (push cmp grow q x m).2.2.nrefused = m.nrefused ∧
+    ((push cmp grow q x m).1 = .ok ∧ q.size = q.capacity ∧ (m.allocT q.triple).1 = true ∧
+        (push cmp grow q x m).2.2.allocsT q.triple = m.allocsT q.triple + 1 ∧
+        (push cmp grow q x m).2.2.nrefused = m.nrefused ∧
         (push cmp grow q x m).2.1.capacity = newCapacity grow q) ∨
     -- growth refused
-    ((push cmp grow q x m).1 = .errAlloc ∧ q.size = q.capacity ∧ m.alloc.1 = false ∧
-        (push cmp grow q x m).2.2.nalloc = m.nalloc ∧ (push cmp grow q x m).2.2.nrefused = m.nrefused + 1 ∧
+    ((push cmp grow q x m).1 = .errAlloc ∧ q.size = q.capacity ∧ (m.allocT q.triple).1 = false ∧
+        (push cmp grow q x m).2.2.allocsT q.triple = m.allocsT q.triple ∧
+        (push cmp grow q x m).2.2.nrefused = m.nrefused + 1 ∧
         (push cmp grow q x m).2.1 = q) := by
   have hsc := h.1.1
-  have hl' : 0 < m.liveT q.triple := by rw [ht]; exact hl
-  have hconv : (m.allocT q.triple).1 = m.alloc.1 := by rw [ht]; rfl
   rw [push_eq]
   by_cases hfull : q.size ≥ q.capacity
   · simp only [hfull, if_true]
-    have hcnt := expand_counts grow q m ht
-    rcases expand_spec cmp grow q m h hl' with ⟨e1, e2, e3, e4, _, _, _, ea⟩ | ⟨e1, e2, _, _⟩
+    have hcnt := expand_counts grow q m
+    rcases expand_spec cmp grow q m h hl with ⟨e1, e2, e3, e4, _, _, _, ea⟩ | ⟨e1, e2, _, _⟩
     · have : ((expandCapacity grow q m).1 != .ok) = false := by rw [e1]; rfl
       simp only [this, Bool.false_eq_true, if_false]
       have hroom : (expandCapacity grow q m).2.1.size < (expandCapacity grow q m).2.1.capacity := by omega
@@ -160,14 +163,14 @@ theorem push_counts {cmp : Nat → Nat → Int} (tp : TotalPreorder cmp) (grow :
       right; left
       rw [hs.2.2.2.2.2, hs.2.2.2.2.1]
       have := hcnt.1 e1
-      exact ⟨hs.1, by omega, hconv ▸ ea, this.1, this.2.1, this.2.2⟩
+      exact ⟨hs.1, by omega, ea, this.1, this.2.1, this.2.2⟩
     · have : ((expandCapacity grow q m).1 != .ok) = true := by
         rcases e1 with ⟨e1, _⟩ | e1 <;> rw [e1] <;> rfl
       simp only [this, if_true]
       rcases e1 with ⟨e1, ea⟩ | e1
       · right; right
         have := hcnt.2.1 e1
-        exact ⟨e1, by omega, hconv ▸ ea, this.1, this.2, e2⟩
+        exact ⟨e1, by omega, ea, this.1, this.2, e2⟩
       · left
         exact ⟨Or.inr e1, hcnt.2.2 e1, by rw [e2]⟩
   · simp only [hfull, if_false]
@@ -280,37 +283,38 @@ theorem top_indep (q : PQueue) (m m' : Mem) : (q.top m).1 = (q.top m').1 ∧ (q.
   unfold top; split <;> exact ⟨rfl, rfl⟩
 
 /-! ## doubling growth -/
-theorem newCapacity_double (grow : Nat → Nat) (q : PQueue) (hd : ∀ c, 2 * c ≤ grow c) (hc : 0 < q.capacity) :
+theorem newCapacity_double (grow : Nat → Nat) (q : PQueue) (hd : 2 * q.capacity ≤ grow q.capacity) (hc : 0 < q.capacity) :
     2 * q.capacity ≤ newCapacity grow q := by
   unfold newCapacity
-  have := hd q.capacity
   simp only
   split <;> omega
 
-/-- invariant of a run of pushes under a growth law that at least doubles: with `c0`/`n0` the
-capacity and the allocation counter at the start, after `k` successful growths the capacity is at
-least `c0 * 2^k`, and the size exceeds `c0 * 2^(k-1)` -/
-theorem pushAll_doubling {cmp : Nat → Nat → Int} (tp : TotalPreorder cmp) (grow : Nat → Nat)
-    (hd : ∀ c, 2 * c ≤ grow c) (c0 n0 : Nat) :
-    ∀ (xs : List Nat) (q : PQueue) (m : Mem), Inv' cmp q → q.triple = .conf → 0 < m.live →
-      n0 ≤ m.nalloc → c0 * 2 ^ (m.nalloc - n0) ≤ q.capacity →
-      (1 ≤ m.nalloc - n0 → c0 * 2 ^ (m.nalloc - n0 - 1) < q.size) →
-      Inv' cmp (pushAll cmp grow q xs m).1 ∧ n0 ≤ (pushAll cmp grow q xs m).2.nalloc ∧
-      c0 * 2 ^ ((pushAll cmp grow q xs m).2.nalloc - n0) ≤ (pushAll cmp grow q xs m).1.capacity ∧
-      (1 ≤ (pushAll cmp grow q xs m).2.nalloc - n0 →
-        c0 * 2 ^ ((pushAll cmp grow q xs m).2.nalloc - n0 - 1) < (pushAll cmp grow q xs m).1.size) ∧
+/-- invariant of a run of pushes under a growth law that at least doubles **on the capacities below the
+final size `B`**: with `c0`/`n0` the capacity and the allocation counter (of the queue's triple) at
+the start, after `k` successful growths the capacity is at least `c0 * 2^k`, and the size exceeds
+`c0 * 2^(k-1)` -/
+theorem pushAll_doubling {cmp : Nat → Nat → Int} (tp : TotalPreorder cmp) (grow : Nat → Nat) (B : Nat)
+    (hd : ∀ c, c < B → 2 * c ≤ grow c) (c0 n0 : Nat) (t : Triple) :
+    ∀ (xs : List Nat) (q : PQueue) (m : Mem), Inv' cmp q → q.triple = t → 0 < m.liveT t → q.size + xs.length ≤ B →
+      n0 ≤ m.allocsT t → c0 * 2 ^ (m.allocsT t - n0) ≤ q.capacity →
+      (1 ≤ m.allocsT t - n0 → c0 * 2 ^ (m.allocsT t - n0 - 1) < q.size) →
+      Inv' cmp (pushAll cmp grow q xs m).1 ∧ n0 ≤ (pushAll cmp grow q xs m).2.allocsT t ∧
+      c0 * 2 ^ ((pushAll cmp grow q xs m).2.allocsT t - n0) ≤ (pushAll cmp grow q xs m).1.capacity ∧
+      (1 ≤ (pushAll cmp grow q xs m).2.allocsT t - n0 →
+        c0 * 2 ^ ((pushAll cmp grow q xs m).2.allocsT t - n0 - 1) < (pushAll cmp grow q xs m).1.size) ∧
       (pushAll cmp grow q xs m).1.size ≤ q.size + xs.length ∧ q.capacity ≤ (pushAll cmp grow q xs m).1.capacity := by
   intro xs
   induction xs with
-  | nil => intro q m h _ _ h1 h2 h3; exact ⟨h, h1, h2, h3, by simp [pushAll], Nat.le_refl _⟩
+  | nil => intro q m h _ _ _ h1 h2 h3; exact ⟨h, h1, h2, h3, by simp [pushAll], Nat.le_refl _⟩
   | cons x xs ih =>
-    intro q m h ht hl h1 h2 h3
+    intro q m h ht hl hB h1 h2 h3
     simp only [pushAll]
+    simp only [List.length_cons] at hB
     have hl' : 0 < m.liveT q.triple := by rw [ht]; exact hl
     have hm := push_mem tp grow q x m h hl'
     rw [ht] at hm
     have hsp := push_spec tp grow q x m h hl'
-    have ht' := push_triple cmp grow q x m
+    have ht' : (push cmp grow q x m).2.1.triple = t := by rw [push_triple, ht]
     have hinv' : Inv' cmp (push cmp grow q x m).2.1 := by
       rcases hsp with ⟨_, e, _⟩ | ⟨_, e⟩
       · exact e
@@ -319,49 +323,53 @@ theorem pushAll_doubling {cmp : Nat → Nat → Int} (tp : TotalPreorder cmp) (g
       rcases hsp with ⟨_, _, _, e⟩ | ⟨_, e⟩
       · omega
       · rw [e]; omega
-    have key : n0 ≤ (push cmp grow q x m).2.2.nalloc ∧
-        c0 * 2 ^ ((push cmp grow q x m).2.2.nalloc - n0) ≤ (push cmp grow q x m).2.1.capacity ∧
-        (1 ≤ (push cmp grow q x m).2.2.nalloc - n0 →
-          c0 * 2 ^ ((push cmp grow q x m).2.2.nalloc - n0 - 1) < (push cmp grow q x m).2.1.size) ∧
+    have key : n0 ≤ (push cmp grow q x m).2.2.allocsT t ∧
+        c0 * 2 ^ ((push cmp grow q x m).2.2.allocsT t - n0) ≤ (push cmp grow q x m).2.1.capacity ∧
+        (1 ≤ (push cmp grow q x m).2.2.allocsT t - n0 →
+          c0 * 2 ^ ((push cmp grow q x m).2.2.allocsT t - n0 - 1) < (push cmp grow q x m).2.1.size) ∧
         q.capacity ≤ (push cmp grow q x m).2.1.capacity := by
-      rcases push_counts tp grow q x m h ht hl with ⟨_, k1, k2⟩ | ⟨kok, kfull, _, k1, _, k3⟩ | ⟨_, _, _, k1, _, k3⟩
+      rcases push_counts tp grow q x m h hl' with ⟨_, k1, k2⟩ | ⟨kok, kfull, _, k1, _, k3⟩ | ⟨_, _, _, k1, _, k3⟩
       · rw [k1, k2]
         exact ⟨h1, h2, fun hh => Nat.lt_of_lt_of_le (h3 hh) hsize.2, Nat.le_refl _⟩
       · have hsz : (push cmp grow q x m).2.1.size = q.size + 1 := by
           rcases hsp with ⟨_, _, _, e⟩ | ⟨hb, _⟩
           · exact e
           · rcases hb with ⟨hb, _⟩ | hb <;> rw [hb] at kok <;> cases kok
-        have hnc := newCapacity_double grow q hd h.1.2.2.1
+        have hnc := newCapacity_double grow q (hd q.capacity (by omega)) h.1.2.2.1
+        rw [ht] at k1
         rw [k1, k3, hsz]
-        have e : m.nalloc + 1 - n0 = (m.nalloc - n0) + 1 := by omega
+        have e : m.allocsT t + 1 - n0 = (m.allocsT t - n0) + 1 := by omega
         refine ⟨by omega, ?_, fun _ => ?_, by omega⟩
         · rw [e, Nat.pow_succ, ← Nat.mul_assoc]; omega
         · rw [e, Nat.add_sub_cancel]; omega
-      · rw [k1, k3]
+      · rw [ht] at k1
+        rw [k1, k3]
         exact ⟨h1, h2, h3, Nat.le_refl _⟩
-    have := ih (push cmp grow q x m).2.1 (push cmp grow q x m).2.2 hinv' (by rw [ht', ht]) (by have := hm.1; simp only [Mem.liveT_conf] at this; rw [this]; exact hl) key.1 key.2.1 key.2.2.1
+    have := ih (push cmp grow q x m).2.1 (push cmp grow q x m).2.2 hinv' ht' (by rw [hm.1]; exact hl) (by omega)
+      key.1 key.2.1 key.2.2.1
     obtain ⟨t1, t2, t3, t4, t5, t6⟩ := this
     refine ⟨t1, t2, t3, t4, ?_, by omega⟩
     simp only [List.length_cons]; omega
 
 /-- **logarithmic number of re-allocations**: pushing `n` elements performs at most
-`log2 (size + n) + 1` successful allocator calls when every growth step at least doubles -/
+`log2 (size + n) + 1` successful allocator calls on the queue's own triple when every growth step
+taken below the final size at least doubles -/
 theorem pushAll_realloc_log {cmp : Nat → Nat → Int} (tp : TotalPreorder cmp) (grow : Nat → Nat)
-    (hd : ∀ c, 2 * c ≤ grow c) (q : PQueue) (xs : List Nat) (m : Mem) (h : Inv' cmp q) (ht : q.triple = .conf)
-    (hl : 0 < m.live) :
-    (pushAll cmp grow q xs m).2.nalloc - m.nalloc ≤ Nat.log2 (q.size + xs.length) + 1 := by
-  obtain ⟨_, t2, t3, t4, t5, _⟩ := pushAll_doubling tp grow hd q.capacity m.nalloc xs q m h ht hl (Nat.le_refl _)
-    (by simp) (fun hh => by omega)
-  by_cases hk : (pushAll cmp grow q xs m).2.nalloc - m.nalloc = 0
+    (q : PQueue) (xs : List Nat) (m : Mem) (hd : ∀ c, c < q.size + xs.length → 2 * c ≤ grow c)
+    (h : Inv' cmp q) (hl : 0 < m.liveT q.triple) :
+    (pushAll cmp grow q xs m).2.allocsT q.triple - m.allocsT q.triple ≤ Nat.log2 (q.size + xs.length) + 1 := by
+  obtain ⟨_, t2, t3, t4, t5, _⟩ := pushAll_doubling tp grow (q.size + xs.length) hd q.capacity (m.allocsT q.triple) q.triple
+    xs q m h rfl hl (Nat.le_refl _) (Nat.le_refl _) (by simp) (fun hh => by omega)
+  by_cases hk : (pushAll cmp grow q xs m).2.allocsT q.triple - m.allocsT q.triple = 0
   · omega
   · have h1 := t4 (by omega)
     have hc : 1 ≤ q.capacity := h.1.2.2.1
-    have hpow : 2 ^ ((pushAll cmp grow q xs m).2.nalloc - m.nalloc - 1) ≤ q.size + xs.length := by
-      have : 2 ^ ((pushAll cmp grow q xs m).2.nalloc - m.nalloc - 1) ≤
-          q.capacity * 2 ^ ((pushAll cmp grow q xs m).2.nalloc - m.nalloc - 1) := Nat.le_mul_of_pos_left _ hc
+    have hpow : 2 ^ ((pushAll cmp grow q xs m).2.allocsT q.triple - m.allocsT q.triple - 1) ≤ q.size + xs.length := by
+      have : 2 ^ ((pushAll cmp grow q xs m).2.allocsT q.triple - m.allocsT q.triple - 1) ≤
+          q.capacity * 2 ^ ((pushAll cmp grow q xs m).2.allocsT q.triple - m.allocsT q.triple - 1) := Nat.le_mul_of_pos_left _ hc
       omega
     have hne : q.size + xs.length ≠ 0 := by
-      have : 0 < 2 ^ ((pushAll cmp grow q xs m).2.nalloc - m.nalloc - 1) := Nat.pow_pos (by decide)
+      have : 0 < 2 ^ ((pushAll cmp grow q xs m).2.allocsT q.triple - m.allocsT q.triple - 1) := Nat.pow_pos (by decide)
       omega
     have := (Nat.le_log2 hne).2 hpow
     omega
